@@ -21,6 +21,33 @@ import (
 
 // distSpec: scalar operations met in distribution code beyond the arithmetic core.
 func distSpec(name string, a []*sym.Term, extra []vn.Value) (*sym.Term, bool) {
+	// reductions over local vectors (Gram-Schmidt: Vnorm, VdotV of matrix columns)
+	if name == "vnorm" || name == "vdotv" {
+		var vs []*vn.LocalVec
+		for _, e := range extra {
+			if lv, ok := e.(*vn.LocalVec); ok {
+				vs = append(vs, lv)
+			}
+		}
+		if (name == "vnorm" && len(vs) == 1) || (name == "vdotv" && len(vs) == 2) {
+			if c, ok := vs[0].Len.IsConst(); ok && c.IsInt() {
+				n := int(c.Num().Int64())
+				s := sym.Zero()
+				for i := 0; i < n; i++ {
+					x := vs[0].Cell(i)
+					y := vs[len(vs)-1].Cell(i)
+					if x == nil || y == nil {
+						return nil, false
+					}
+					s = sym.Add(s, sym.Mul(x, y))
+				}
+				if name == "vnorm" {
+					return sym.Fn("pow", s, sym.Rat(1, 2)), true
+				}
+				return s, true
+			}
+		}
+	}
 	if v, ok := scalarSpec(name, a, extra); ok {
 		return v, true
 	}
